@@ -38,7 +38,7 @@ def _drive(args):
             recs = [vbsc.rec_content(r, n, vbsc.STYLES[(n + mode) % len(vbsc.STYLES)])]
         else:
             blocked = bool(tid & 1)
-            api = 'func' if tid % 5 == 0 else 'class'
+            api = 'func' if tid % 5 == 0 else ('mixed' if tid % 5 == 2 else 'class')
             recs = []
             off = 0
             style = r.choice(vbsc.STYLES)
